@@ -276,7 +276,7 @@ inductive Handles (cfg : Cfg) (req : Req) (ids : List Nat) (st : State) : Option
   | grant (c rq pool resp isReq x ty d now' blob) : plan cfg req ids = .alloc c rq pool resp isReq →
       Outcome.ok x ty d ∈ allowed st.rows st.now c rq pool → st.now ≤ now' →
       Handles cfg req ids st
-        (some (reply req resp isReq x (clamp d Generated.Dhcp.defaultMinLease Generated.Dhcp.defaultMaxLease)))
-        (Pool.grant st c x now' (clamp d Generated.Dhcp.defaultMinLease Generated.Dhcp.defaultMaxLease) blob)
+        (some (reply req resp isReq x (leaseFor d Generated.Dhcp.defaultMinLease Generated.Dhcp.defaultMaxLease (remainingOf st.rows c x now'))))
+        (Pool.grant st c x now' (leaseFor d Generated.Dhcp.defaultMinLease Generated.Dhcp.defaultMaxLease (remainingOf st.rows c x now')) blob)
 
 end Erbium.Dhcp
